@@ -610,6 +610,9 @@ def check_group(res, leg, i, g, t_from, t_to, dts, max_dt, seen_times):
         if alt:
             believed = t_to - alt[-1]
             res.add("C11", "held_time", f"C11:{leg}:held_time", i, f"propagation {g} starts at the held time {float(t_from)!r}", f"steps sum to {float(total)!r} = distance from {float(alt[-1])!r} (an earlier time of this history) to {float(t_to)!r}", leg)
+            if not dts and abs(delta) > SUM_TOL:
+                # no step at all for a move between two different times: also what C10 forbids, whatever the runtime believed
+                res.add("C10", "sum", f"C10:{leg}:sum:no_steps_for_a_move", i, f"steps from {float(t_from)!r} to {float(t_to)!r} sum to {float(delta)!r} within 1e-9", "no prediction step was made", leg)
         else:
             res.add("C10", "sum", f"C10:{leg}:sum:{direction}", i, f"steps from {float(t_from)!r} to {float(t_to)!r} sum to {float(delta)!r} within 1e-9", f"sum={float(total)!r} steps={_fmt(dts)}", leg)
     if delta == 0 and believed == 0 and dts:
